@@ -22,7 +22,7 @@ def square(traces):
         (numpy.ndarray) square of input traces array.
 
     """
-    return _np.square(traces, dtype=max(traces.dtype, 'float32'))
+    return _np.square(traces, dtype=_np.promote_types(traces.dtype, 'float32'))
 
 
 @preprocess
@@ -68,7 +68,7 @@ def center(traces):
         (numpy.ndarray) traces subtracted of the mean on all traces.
 
     """
-    return _center(traces, _np.nanmean(traces, axis=0, dtype=max(traces.dtype, 'float32')))
+    return _center(traces, _np.nanmean(traces, axis=0, dtype=_np.promote_types(traces.dtype, 'float32')))
 
 
 @preprocess
@@ -82,7 +82,7 @@ def standardize(traces):
         (numpy.ndarray) traces subtracted of the mean on all traces and normalized on the standard of all traces.
 
     """
-    return center(traces) / _np.nanstd(traces, axis=0, dtype=max(traces.dtype, 'float32'))
+    return center(traces) / _np.nanstd(traces, axis=0, dtype=_np.promote_types(traces.dtype, 'float32'))
 
 
 class StandardizeOn(Preprocess):
@@ -107,7 +107,7 @@ class StandardizeOn(Preprocess):
         self.precision = _np.dtype(precision)
 
     def __call__(self, traces):
-        precision = max(traces.dtype, self.precision)
+        precision = _np.promote_types(traces.dtype, self.precision)
         _mean = self.mean if self.mean is not None else _np.nanmean(traces, axis=0, dtype=precision)
         _std = self.std if self.std is not None else _np.nanstd(traces, axis=0, dtype=precision)
         try:
@@ -134,7 +134,7 @@ class CenterOn(Preprocess):
         self.precision = _np.dtype(precision)
 
     def __call__(self, traces):
-        return _center(traces.astype(max(traces.dtype, self.precision)), self.mean)
+        return _center(traces.astype(_np.promote_types(traces.dtype, self.precision)), self.mean)
 
 
 class ToPower(Preprocess):
@@ -145,4 +145,4 @@ class ToPower(Preprocess):
         self.precision = _np.dtype(precision)
 
     def __call__(self, traces):
-        return _np.power(traces, self.power, dtype=max(traces.dtype, self.precision))
+        return _np.power(traces, self.power, dtype=_np.promote_types(traces.dtype, self.precision))
